@@ -7,7 +7,8 @@ the tridiagonal solver is replaced by its contract (fresh unknowns, engine/thoma
 grid and the time-step rule by "each epoch is integrated in exactly k implicit steps".
 
 (a) well-formedness: no exception on any feasible path, Spectrum of shape ns+1, extrap_x = first interior grid point,
-    corners masked, one parameter more / fewer rejected, every named parameter occurs in the computation.
+    corners masked, one parameter more / fewer rejected, every named parameter occurs in the computation, selection
+    models hand a selection coefficient to every integration call.
 (b) nesting: model A and model B (table NEST below) are run on the same symbolic parameters; B's k-th tridiagonal
     solve returns A's k-th unknowns and z3 proves the two systems (a,b,c,r) equal coefficient by coefficient
     (uniqueness lemma T1' of C02 then gives equal solutions); finally the spectra are proved equal entrywise.
@@ -63,7 +64,9 @@ META = dict(
         'with one parameter fewer / one more must raise ValueError/TypeError/IndexError; and when all epochs have '
         'positive length every named parameter must occur in the terms handed to the solver or in the spectrum (a '
         'parameter that is unpacked but never used is a copy-paste slip; branch conditions evaluated by the model count as '
-        'uses; gamma2 of bottlegrowth_2d_sel is inert by construction and exempt).  (b) For each pair of the nesting table '
+        'uses; gamma2 of bottlegrowth_2d_sel is inert by construction and exempt); in demography+selection models every call '
+        'of Integration.one_pop/two_pops/three_pops must receive one of the model\'s selection coefficients for each '
+        'population (selection acts in every epoch; the calls are logged by pass-through wrappers, also in float replays).  (b) For each pair of the nesting table '
         '(A(args_A) = B(args_B) on shared symbolic variables: equal asymmetric rates, zero migration, zero-length epoch, '
         'equal sizes in consecutive epochs, island-model size fractions, gamma1=gamma2, gamma=0, identical models of '
         'different families) A is run first; in the run of B the k-th tridiagonal solve returns the unknowns of '
@@ -75,7 +78,7 @@ META = dict(
         'difference is reported.'),
     functions=['every function with __param_names__ in dadi.Demographics1D, dadi.Demographics2D, dadi.Demographics3D, '
                'dadi.PortikModels.portik_models_2d, dadi.PortikModels.portik_models_3d, dadi.DFE.DemogSelModels '
-               '(101 spectrum-returning models)',
+               '(104 spectrum-returning models at the time of writing; the list is rebuilt on every run)',
                'dadi.PhiManip.phi_1D / phi_1D_genic / phi_1D_snm / phi_1D_to_2D / phi_2D_to_3D_split_2 / phi_2D_to_3D_admix / '
                'phi_2D_admix_1_into_2', 'dadi.Integration.one_pop / two_pops / three_pops (+ _const_params variants, '
                '_inject_mutations_*)', 'implicit_1Dx, implicit_2Dx/y, implicit_3Dx/y/z, implicit_precalc_2D*/3D* (IR)',
@@ -84,11 +87,14 @@ META = dict(
            'dadi/PortikModels/portik_models_2d.py', 'dadi/PortikModels/portik_models_3d.py', 'dadi/DFE/DemogSelModels.py',
            'dadi/PhiManip.py', 'dadi/Integration.py', 'dadi/Spectrum_mod.py', 'dadi/Numerics.py'] + K.FILES[:9],
     bounds=dict(
-        quick='grid: 4 rational non-uniform points; sample sizes (3,), (3,2), (2,1,2) ((2,) for the inbreeding model); '
-              'every epoch exactly one implicit time step; all parameters symbolic in the documented ranges; every model '
-              '(101) for (a); the full nesting table (about 110 pairs) for (b)',
-        thorough='quick plus: every model and every pair again with a 5-point grid, sample sizes (4,), (2,3), (1,2,2) '
-                 'and every epoch exactly two implicit time steps (dt < T < 2 dt, one fresh dt per epoch length)'),
+        quick='grid: 4 rational non-uniform points (0,1/8,1/2,1); sample sizes (3,), (3,2), (2,1,2) ((2,) for the '
+              'inbreeding model); all parameters symbolic in the documented ranges (T in [0,3] for (a), (0,3] for (b); '
+              'zero-length epochs of (b) are the pairs with a literal 0); (a): every model (104), every epoch exactly one '
+              'implicit time step; (b): the full nesting table (%d pairs) with every epoch exactly one and exactly two '
+              'implicit time steps (dt < T < 2 dt, one fresh dt per distinct epoch length)',
+        thorough='quick plus: (a) with two steps per epoch; (a) and (b) again on a 5-point grid (0,1/16,1/4,5/8,1) with '
+                 'sample sizes (4,), (2,3), (1,2,2) and one / two steps per epoch; (b) with exactly three steps per epoch '
+                 'on the 4-point grid'),
     outside=['finite / non-negative spectrum entries (M-matrix argument, not encoded)',
              'label-swap equivariance "up to operator-splitting error" (not an exact identity)',
              'more than two time steps per epoch, grids beyond 5 points, sample sizes beyond the bounds, round-off',
@@ -140,7 +146,7 @@ def discover():
             key = f.__name__
             if key in found:
                 if found[key] is not f:
-                    raise ValueError('two different model functions are called %s' % key)
+                    raise HarnessError('two different model functions are called %s' % key)
                 continue
             found[key] = f
     return found
@@ -182,7 +188,7 @@ def kind(name):
         return 'frac'
     if name == 'F':
         return 'F'
-    raise KeyError('parameter name %r: unknown kind (extend checks/c15.py:kind)' % name)
+    raise HarnessError('parameter name %r: unknown kind (extend checks/c15.py:kind)' % name)
 
 
 def declare(env, name, positive_T=False):
@@ -264,10 +270,11 @@ def _install_sym():
     def wrap(orig):
         def driver(phi, xx, T, *a, **k):
             CTX['T'] = T - k.get('initial_t', 0)
+            _record_driver(orig, (phi, xx, T) + a, k)
             return orig(phi, xx, T, *a, **k)
         driver.__name__ = orig.__name__
         return driver
-    for nm in ('one_pop', 'two_pops', 'three_pops'):
+    for nm in DRIVERS:
         shims.set_attr(Integration, nm, wrap(getattr(Integration, nm)))
 
     oexp, opow, odiv = S.Sym.exp, S.Sym.__pow__, S.Sym._div
@@ -308,6 +315,34 @@ def _install_sym():
     return si
 
 
+DRIVERS = ('one_pop', 'two_pops', 'three_pops')
+
+
+def _record_driver(orig, args, kw):
+    ba = inspect.signature(orig).bind(*args, **kw)
+    ba.apply_defaults()
+    CTX.setdefault('drivers', []).append((orig.__name__, dict(ba.arguments)))
+
+
+class _RecordDrivers:
+    """Float replays: the real Integration.one_pop / two_pops / three_pops, wrapped only to log their arguments."""
+    def __enter__(self):
+        from dadi import Integration
+        self.saved = {nm: getattr(Integration, nm) for nm in DRIVERS}
+        for nm, orig in self.saved.items():
+            def driver(*a, _orig=orig, **k):
+                _record_driver(_orig, a, k)
+                return _orig(*a, **k)
+            setattr(Integration, nm, driver)
+        return self
+
+    def __exit__(self, *exc):
+        from dadi import Integration
+        for nm, orig in self.saved.items():
+            setattr(Integration, nm, orig)
+        return False
+
+
 def _activate(si):
     from dadi import Integration
     Integration.int_c = si.rec
@@ -318,6 +353,7 @@ def _begin(env, steps):
     CTX['env'] = env
     CTX['steps'] = steps
     CTX['nz'] = {}
+    CTX['drivers'] = []
     if env.symbolic:
         if CTX['ax'] is None or CTX.get('env_id') != id(env):
             CTX['ax'] = {}
@@ -400,7 +436,12 @@ def wellformed_unit(name, L, steps):
         from dadi import Numerics
         import dadi
         n0 = len(S.CUR.trace) if env.symbolic else 0      # branch decisions taken by the model itself start here
-        fs = _call(f, vals, ns, pts)
+        if env.symbolic:
+            fs = _call(f, vals, ns, pts)
+        else:
+            with _RecordDrivers():
+                fs = _call(f, vals, ns, pts)
+        drivers = list(CTX['drivers'])
         x1 = Numerics.default_grid(pts)[1]
         env.holds('returns a dadi.Spectrum', isinstance(fs, dadi.Spectrum))
         want = tuple(n + 1 for n in ns)
@@ -433,6 +474,21 @@ def wellformed_unit(name, L, steps):
                         env.holds('%s (%s) rejected' % (label, ctor.__name__), True)
                     else:
                         env.fail('%s (%s) accepted' % (label, ctor.__name__))
+        # demography + selection: every integration call gets one of the model's selection coefficients for each
+        # population (selection acts in every epoch)
+        gammas = [v for n, v in zip(names, vals) if kind(n) == 'gamma']
+        if gammas:
+            for ci, (dn, ar) in enumerate(drivers):
+                for key in sorted(ar):
+                    if not key.startswith('gamma'):
+                        continue
+                    g = ar[key]
+                    if env.symbolic:
+                        g = S.Sym.lift(g) if not callable(g) else None
+                        ok = g is not None and g.c is None and any(z3.eq(g.t, S.Sym.lift(v).t) for v in gammas)
+                    else:
+                        ok = (not callable(g)) and any(float(g) == float(v) for v in gammas)
+                    env.holds('integration call %d (%s): %s is a selection coefficient of the model' % (ci, dn, key), ok)
         # every named parameter takes part in the computation (only when no epoch has zero length)
         if allpos and names:
             if env.symbolic:
@@ -631,6 +687,10 @@ NEST = [
     ('two_epoch_sel', 'nu 0 gamma', 'equil', 'gamma'),
     ('three_epoch_sel', 'nuB nuF TB TF 0', 'three_epoch', 'nuB nuF TB TF'),
     ('three_epoch_sel', 'nuB nuF TB 0 gamma', 'two_epoch_sel', 'nuB TB gamma'),
+    ('three_epoch_sel', 'nuB nuF 0 TF gamma', 'two_epoch_sel', 'nuF TF gamma'),
+    ('split_delay_mig_sel', 'nu1 nu2 T 0 m12 m21 gamma1 gamma2', 'split_asym_mig_sel', 'nu1 nu2 T 0 0 gamma1 gamma2'),
+    ('IM_pre_sel', 'nu TPre s nu1 nu2 0 m12 m21 gamma1 gamma2', 'bottlegrowth_2d_sel', 'nu nu TPre gamma1 gamma2'),
+    ('IM_pre', 'nu TPre s nu1 nu2 0 m12 m21', 'bottlegrowth_2d', 'nu nu TPre'),
     ('growth_sel', 'nu T 0', 'growth', 'nu T'),
     ('growth_sel', 'nu T gamma', 'bottlegrowth_1d_sel', '1 nu T gamma'),
     ('bottlegrowth_1d_sel', 'nuB nuF T 0', 'bottlegrowth_1d', 'nuB nuF T'),
@@ -659,6 +719,8 @@ NEST = [
      'nuB nuF m T Ts gamma gamma'),
     ('bottlegrowth_split_mig_sel', 'nuB nuF m T Ts 0 0', 'bottlegrowth_split_mig', 'nuB nuF m T Ts'),
 ]
+
+META['bounds']['quick'] = META['bounds']['quick'] % len(NEST)
 
 # rational parameter points for the inline refinement (by kind, two points)
 POINTS = {'nu': [Fr(3, 2), Fr(2, 5)], 'T': [Fr(1, 4), Fr(7, 10)], 'm': [Fr(3, 4), Fr(2)], 'frac': [Fr(1, 3), Fr(3, 5)],
@@ -767,7 +829,8 @@ def nest_unit(idx, L, steps):
                 env.eq('solve%d:r%d' % (ca.k, j), cb.r[j], ca.r[j])
         _same_spectrum(env, fa, fb, 'fs')
     return H.Unit('nest-%s(%s)=%s(%s)-L%d-steps%d' % (A, ','.join(exA.split()), B, ','.join(exB.split()), L, steps), body,
-                  params=dict(A=A, args_A=exA, B=B, args_B=exB, L=L, steps=steps), min_obligations=4,
+                  params=dict(A=A, args_A=exA, B=B, args_B=exB, L=L, steps=steps),
+                  min_obligations=3 + int(np.prod([n + 1 for n in NS[L][model_dim(discover()[A])]])),
                   timeout_s=600 if steps == 1 else 900, maxpaths=600, query_timeout_ms=60000)
 
 
@@ -808,23 +871,35 @@ def _refine_inline(env, fA, exA, fB, exB, names, ns, L):
 # ---------------------------------------------------------------------------------------------
 def units(tier, seed):
     thorough = tier == 'thorough'
-    models = discover()
+    try:
+        models = discover()
+    except HarnessError as e:
+        def body(env, msg=str(e)):
+            raise HarnessError(msg)
+        return [H.Unit('discovery', body, params=dict(error=str(e)), min_obligations=1, timeout_s=60)]
     names = sorted(n for n, f in models.items() if is_model(f) and not n.endswith('_mscore'))
     us = []
     # (grid points, implicit steps per epoch, with the well-formedness units?)
     configs = [(4, 1, True), (4, 2, False)]
     if thorough:
         configs = [(4, 1, True), (4, 2, True), (5, 1, True), (5, 2, True), (4, 3, False)]
+    def guarded(label, mk, *a):
+        # a model this check cannot classify (new parameter name, undeterminable dimension, a model of the nesting
+        # table that no longer exists) becomes a unit that ends as a harness error (exit 3), never a silent skip
+        try:
+            return mk(*a)
+        except (HarnessError, KeyError) as e:
+            msg = '%s: %s' % (type(e).__name__, e)
+
+            def body(env, msg=msg):
+                raise HarnessError(msg)
+            return H.Unit(label, body, params=dict(error=msg), min_obligations=1, timeout_s=60)
     for L, steps, wf in configs:
         if wf:
             for n in names:
-                us.append(wellformed_unit(n, L, steps))
+                us.append(guarded('wellformed-%s-L%d-steps%d' % (n, L, steps), wellformed_unit, n, L, steps))
         for i in range(len(NEST)):
-            us.append(nest_unit(i, L, steps))
-    # every model of the nesting table must exist (a renamed / removed model must not silently drop a pair)
-    for A, _, B, _ in NEST:
-        if A not in models or B not in models:
-            raise KeyError('nesting table refers to unknown model %s / %s' % (A, B))
+            us.append(guarded('nest-%s=%s-#%d-L%d-steps%d' % (NEST[i][0], NEST[i][2], i, L, steps), nest_unit, i, L, steps))
 
     def weight(u):
         p = u.params
